@@ -83,6 +83,17 @@ def arg_term(interp: Interp, st: St, args, kwargs):
     return z3.Function(f"args_{len(ts)}", *([T.Val] * len(ts)), T.Val)(*ts)
 
 
+def shaped_rows(interp, name, recv_term, k, arity):
+    cache = interp.ctx.__dict__.setdefault("shape_cache", {})
+    key = (name, recv_term.get_id())
+    if key not in cache:
+        rows = []
+        for i in range(k):
+            rows.append(V("tuple", [V("sym", t=interp.ctx.fresh_val(f"{name}_{i}_{j}")) for j in range(arity)]))
+        cache[key] = V("tuple", rows)
+    return cache[key]
+
+
 def call_symmethod(interp, st, f, args, kwargs):
     _, obj, name = f.tag
     kind = interp.method_disciplines[name]
@@ -94,6 +105,21 @@ def call_symmethod(interp, st, f, args, kwargs):
     if kind == "PRED":
         fn = z3.Function(f"mcall_{name}", *([T.Val] * len(ts)), T.B)
         yield st, ("ok", V("bool", fn(*ts)))
+        return
+    if isinstance(kind, tuple) and kind[0] == "TUPLES":
+        # a method returning a sequence of k tuples of the given arity with symbolic components (bounded *shape*)
+        yield st, ("ok", shaped_rows(interp, name, ts[0], kind[1], kind[2]))
+        return
+    if kind == "VAL_OR_RAISE":
+        okf = z3.Function(f"mok_{name}", *([T.Val] * len(ts)), T.B)
+        fn = z3.Function(f"mcall_{name}", *([T.Val] * len(ts)), T.Val)
+        for s, okb in interp.fork_on(st, okf(*ts)):
+            if okb:
+                yield s, ("ok", V("sym", t=fn(*ts)))
+            else:
+                e = interp.ctx.fresh_val("merr")
+                s.assume(T.F_sub(T.F_cls(e), interp.reg.cls(Exception)))
+                yield s, (RAISE, V("sym", t=e))
         return
     if kind == "ROUTE":
         # contract of RequestRouter.route_handler (proved for both router classes in contracts/routers.py):
@@ -123,6 +149,10 @@ def getitem_symbolic(interp, st, obj, key):
             interp.ctx.assume_note("integer subscripts of symbolic tuples are in range")
             yield st, ("ok", V("sym", t=T.F_at(interp.term(st, obj), kt)))
             return
+    if obj.kind == "sym" and obj.shadow is None:
+        interp.ctx.assume_note("subscript of a symbolic mapping: total deterministic lookup (KeyError path not modelled)")
+        yield st, ("ok", V("sym", t=T.F_lookup(interp.term(st, obj), interp.term(st, key))))
+        return
     raise Unsupported(f"subscript {obj!r}[{key!r}]")
 
 
@@ -921,6 +951,13 @@ def consume(interp: Interp, st: St, x: V):
 
 def make_sequence(interp: Interp, st: St, pycls, seqval):
     """A fresh tuple/list/... holding the given elements."""
+    if seqval[0] == "items" and pycls in (set, frozenset) and not all(x.kind == "const" and x.shadow is None
+                                                                       for x in seqval[1]):
+        interp.ctx.assume_note("a set of symbolic elements is modelled as its element list (duplicates are not removed; only "
+                               "membership-style clauses are stated over it)")
+        v = V("tuple", list(seqval[1]))
+        v.tag = ("setlike",)
+        return v
     if seqval[0] == "items":
         if pycls in (tuple, set, frozenset) and all(x.kind == "const" and x.shadow is None for x in seqval[1]):
             try:
